@@ -2,6 +2,8 @@
 import vlib
 from deque_common import DequeSpec
 
+SPECS = {"deque": (DequeSpec(iterators=False), "harness", "runner")}
+
 PROP_FILES = ["C04"]
 
 
